@@ -680,8 +680,22 @@ pub fn run_parse(args: &Args) {
             let mut r3 = rows.clone();
             r3.insert(rng.below(8) as usize, rows[rng.below(8) as usize]);
             parse_event(&mut sh, "field", &format!("{} {}", r3.join("/"), fields[1..].join(" ")), &base, 0);
-            // character-level edits
+            // look-alikes: one character replaced by a code point a sloppy parser might take for it (byte truncation,
+            // full-width forms, Unicode case mapping: every K and k, and a few other positions)
             let cs: Vec<char> = base.chars().collect();
+            let mut spots: Vec<usize> = (0..cs.len()).filter(|&i| cs[i] == 'K' || cs[i] == 'k').collect();
+            for _ in 0..args.num("lookalike-spots", 5) {
+                spots.push(rng.below(cs.len() as u64) as usize);
+            }
+            for i in spots {
+                for ch in lookalikes(cs[i]) {
+                    let mut c = cs.clone();
+                    c[i] = ch;
+                    let t: String = c.iter().collect();
+                    parse_event(&mut sh, "lookalike", &t, &base, -1);
+                }
+            }
+            // character-level edits
             for _ in 0..args.num("edits", 30) {
                 let mut c = cs.clone();
                 let pos = rng.below(c.len() as u64) as usize;
